@@ -351,11 +351,11 @@ def a2_routes(ctx):
 
 
 def run(ctx):
-    s1_extract(ctx)
-    s2_iter(ctx)
-    y1_writer(ctx)
-    a1_store(ctx)
-    a2_routes(ctx)
+    ctx.part('C03.S1', s1_extract)
+    ctx.part('C03.S2', s2_iter)
+    ctx.part('C03.Y1', y1_writer)
+    ctx.part('C03.A1', a1_store)
+    ctx.part('C03.A2', a2_routes)
 
 
 LEVEL_TEXT = ('Static check of the three waveform routes: symbolic window / padding formulas of _extract_waveform over all sign cases, the three '
